@@ -80,6 +80,7 @@ def check(ctx):
     pegexec.correspond(ctx, [(k, s) for k, s in srcs if len(s) < 4000], "c01peg", minimum=100)
     # declarations with their qualifiers in every order (mostly not SystemVerilog): whatever is accepted must tile
     srcs += svgen.qualifier_orders()
+    srcs += svgen.attribute_zoo()
     ctx.cov["deepened"] = deep
     cases, meta = [], {}
     for i, (k, src) in enumerate(srcs):
